@@ -27,3 +27,8 @@ claim('C01', 'expression extraction of Box/Plane methods over symbolic cells + e
       'Decides structural necessary conditions on the current source: the parameter-set chain, all getters, reciprocal duality, the two coordinate conversions (inverse pair, any leading shape, no write to the argument) '
       'and the six-face table of inside()/outside() are proved as exact identities on expressions extracted from the syntax tree; cache invalidation is unconditional and the vectors have two writers. '
       'Rounding bounds and behaviour within rounding of a face are not decided.', 'DESIGN.md §6 C01')
+
+claim('C02', 'scripted-comparison evaluation of the Cython kernels (Cython parse tree lowered to ast) over symbolic positions/cell: fold-minimum over the exact candidate set; wrapper broadcasting and box/pbc pairing rules',
+      'Decides that the code is the minimum over exactly the 3^k lattice-image candidates of the periodic directions (all 8 settings, both kernels, judged from the .pyx source, not the compiled module), '
+      'that the scalar distance is the square root of the same minimum, that broadcasting is one-to-many only, and that displacement()/System.dvect/dmag pair box and periodicity from the right system. '
+      'The nearest-image theorem for that minimum is mathematics about the candidate set, not decided here.', 'DESIGN.md §6 C02')
